@@ -1,4 +1,4 @@
-import Fcgi.Proofs.E2EFilterConn
+import Fcgi.Proofs.E2EPrefixW
 import Fcgi.Props.C07Unread3
 /-!
 # C07 / C05 — a Filter left wholly unread, any Data stream
@@ -21,6 +21,12 @@ How far that is depends on the chunking, so the theorems are existential in a sp
   epilogue; parked, or returned at end-of-file.
 * `unread_filter_e2e_full_holds`: the statement `unread_filter_e2e_full` of `Props/C07Unread2.lean`.
 * `unread_filter_chain_e2e`: the chain step — further keep-alive requests are served exactly as alone.
+
+* `unread_prefix_write_e2e`: the Responder handler `[.read n, .open_ 6, .writeAll 0 data, .dropW 0,
+  .ret st]` (prefix read, then Stdout output): as `unread_prefix_e2e`, the log being preamble replies,
+  `O₁`, the Stdout records, `O₂`, the epilogue, the replies for `s₂`, with `O₁ ++ O₂` the replies owed
+  for the consumed records `s₁` (`Proofs/E2EPrefixW`: the write phase redone for a request that has
+  NOT read its input to the end — the `StreamWriter` never touches the `Request`).
 
 Proof route: `Proofs/E2EIgnore1` (the ignoring parser seen as a Responder's parser in stream 5 — own-id
 Data records are then skipped noise), `Proofs/E2EFilterRef` (`ref_81`: the references `⟨id,3,8⟩` and
@@ -330,6 +336,222 @@ theorem unread_filter_chain_e2e {p : Preamble} {recs : List Rec} {content : Byte
     exact hw.ev _ (mem_evsAfter _ _ _ (Or.inr ⟨UReq.spec mc y, List.mem_map_of_mem hy, rfl⟩))
   · rw [← hlast]; exact hw.ph
 
+/-! ## The handler reads a prefix of Stdin, then writes to Stdout -/
+
+/-- the handler: one `read` of up to `n` bytes, then `data` to Stdout, then `Ok(st)` -/
+abbrev readThenWrite (n : Nat) (data : Bytes) (st : ExitStatus) : List HOp := .read n :: writeOnly data st
+
+/-- the configuration of a Responder request whose handler is `readThenWrite n data st` -/
+def cfgPW (p : Preamble) (recs : List Rec) (content : Bytes) (body : List Rec) (pad : Bytes) (res : UInt8)
+    (b mc n : Nat) (data : Bytes) (st : ExitStatus) (L0 : Bytes) (h : Nat) (more : List (List HOp × Bool)) : E2E.Cfg :=
+  ⟨p, recs, content, body, pad, res, [], [], [], 0, b, mc, data, st, L0, h, more,
+    serAll body ++ ({ rtype := 5, id := p.id, content := [], pad := pad, reserved := res } : Rec).ser,
+    [], [], [], [], readThenWrite n data st⟩
+
+/-- what the run ends in -/
+structure PrefixWriteOutcome (p : Preamble) (recs : List Rec) (content : Bytes) (srecs s₁ s₂ : List Rec) (O₁ O₂ d : Bytes)
+    (b mc : Nat) (data : Bytes) (st : ExitStatus) (more : List (List HOp × Bool)) (t : Transport) (c' : Conn)
+    (fin : String) : Prop where
+  /-- the request consumed the records `s₁`, the records `s₂` are left -/
+  split : srecs = s₁ ++ s₂
+  /-- the replies owed for `s₁`: `O₁` were written before the handler's output, `O₂` by `close` -/
+  owed : O₁ ++ O₂ = owedStream p.id 5 mc s₁
+  /-- the `read` returned `d`: a prefix of the Stdin content, empty only if the content is -/
+  read : d <+: content ∧ (d = [] → content = []) ∧ readSomeEvent d ∈ c'.env.tr.events
+  one_handler : hsCount c'.env.tr.events = 1 ∧ startEvent p.request ∈ c'.env.tr.events
+  log : c'.env.tr.wlog = t.wlog ++ (owedPreamble p mc recs ++ O₁ ++ streamRecords 6 p.id data ++ O₂ ++
+    epilogue p.id st ++ owedStream p.id 5 mc s₂)
+  scripts : c'.scripts = more
+  final : (t.endMode = .eof ∧ fin = "RET" ∧ c'.phase = .finished) ∨
+          (t.endMode = .pend ∧ fin = "STALL" ∧
+            c'.phase = .parseReq (track (alignedBufsize b) mc (serAll s₂)) .reading ∧
+            c'.env.tr.input = [] ∧ c'.env.mutex = none ∧ c'.stop = false ∧ Ben c'.env.tr)
+
+/-- **C07/C05 end to end: the handler reads a prefix of Stdin and writes to Stdout.**
+
+As `unread_prefix_e2e`, the handler being `[.read n, .open_ 6, .writeAll 0 data, .dropW 0, .ret st]`
+(`hhf`: a bound for the model fuel).  The `StreamWriter` does not touch the `Request`: replies queued
+in the stream parser when the `read` returned stay queued while `data` is written.  So the log is:
+preamble replies, `O₁`, the Stdout records of `data`, `O₂`, the epilogue, the replies for `s₂` — with
+`O₁ ++ O₂` the replies owed for the consumed records `s₁`. -/
+theorem unread_prefix_write_e2e {p : Preamble} {recs : List Rec} {content : Bytes} {srecs : List Rec}
+    {b mc n : Nat} {data : Bytes} {st : ExitStatus} {more : List (List HOp × Bool)} {t : Transport} {fuel : Nat}
+    (hn : 0 < n)
+    (hwf : WellFormedPreamble p recs) (hrole : p.role = 1) (hk : p.flags.toNat % 2 = 1)
+    (hpairs : ∀ q ∈ p.pairs, (NV.enc q).length ≤ alignedBufsize b)
+    (hnoise : NoiseFits (alignedBufsize b) recs)
+    (hstr : StreamRecs p.id 5 content srecs) (hsn : NoiseFits (alignedBufsize b) srecs)
+    (hnb : ∀ r ∈ srecs, r.rtype.toNat ≠ RT.beginRequest)
+    (hin : t.input = serAll recs ++ serAll srecs) (hben : Ben t) (hev : hsCount t.events = 0)
+    (hfuel : t.rd.length + t.wr.length + 1 ≤ fuel)
+    (hsize : 6 * t.input.length + 26 ≤ 100000) (hhf : wcost data.length + 6 ≤ 1000) :
+    ∃ c' fin s₁ s₂ O₁ O₂ d, runTask fuel (connS b mc t ((readThenWrite n data st, true) :: more)) 0 none = (c', fin) ∧
+      PrefixWriteOutcome p recs content srecs s₁ s₂ O₁ O₂ d b mc data st more t c' fin := by
+  have hidle := srecs_idle hwf hstr hnb
+  obtain ⟨body, pad, res, hpad, hbody, hsrecs⟩ := StreamRecs.split hstr
+  subst hsrecs
+  have ok : PWOK (cfgPW p recs content body pad res b mc n data st t.wlog 0 more) n :=
+    ⟨hwf, hrole, hpairs, hnoise, hbody, fun r hr hg => hsn r (List.mem_append_left _ hr) hg, hpad, rfl, rfl,
+      streamRecs_stdin (pid_of_wf hwf).2 hstr, rfl, hn, hhf⟩
+  have hmem : ∀ s1 s2 : List Rec, (cfgPW p recs content body pad res b mc n data st t.wlog 0 more).R = s1 ++ s2 →
+      ∀ e ∈ s2, e ∈ body ++ [{ rtype := UInt8.ofNat 5, id := p.id, content := [], pad := pad, reserved := res }] := by
+    intro s1 s2 hsp e he
+    have : e ∈ (cfgPW p recs content body pad res b mc n data st t.wlog 0 more).R := by
+      rw [hsp]; exact List.mem_append_right _ he
+    exact this
+  have hgood : ∀ s1 s2 : List Rec, (cfgPW p recs content body pad res b mc n data st t.wlog 0 more).R = s1 ++ s2 →
+      GoodNext (alignedBufsize b) mc s2 (serAll dummyRecs ++ []) := fun s1 s2 hsp =>
+    idle_front dummy_wf b mc (fun q hq => by cases hq) (dummy_fits _) (fun e he => hidle e (hmem s1 s2 hsp e he))
+      (fun e he hg => hsn e (hmem s1 s2 hsp e he) hg) []
+  have hst : FStage (cfgPW p recs content body pad res b mc n data st t.wlog 0 more)
+      (connS b mc t ((readThenWrite n data st, true) :: more)) :=
+    .start (raw := []) rfl (by show [] ++ t.input = _; rw [hin, C02.serAll_append, C02.serAll_single]; rfl)
+      (Nat.zero_le _) rfl hben rfl rfl rfl hev
+  obtain ⟨c', fin, hrun, i, hi, hkp, hem, _, _, _, hend⟩ :=
+    run_prefixW ok hk (Z := serAll dummyRecs ++ []) (fun s1 s2 h => (hgood s1 s2 h).1) (fun s1 s2 h => (hgood s1 s2 h).2)
+      t.endMode [] _ 0 fuel hst rfl (fun s hs => by cases hs) rfl (by show ans t + 1 ≤ fuel; unfold ans; omega) hsize
+  obtain ⟨hsp, hO, hd1, hd2⟩ := hi
+  have hs2 : ∀ e ∈ i.s2, IdleNoise e := fun e he => hidle e (hmem i.s1 i.s2 hsp e he)
+  have hnb2 : ∀ r ∈ i.s2, r.rtype.toNat ≠ RT.beginRequest := fun e he => hnb e (hmem i.s1 i.s2 hsp e he)
+  have hout : ∀ F, F ++ (serAll dummyRecs ++ []) = serAll i.s2 ++ (serAll dummyRecs ++ []) →
+      ((cfgPW p recs content body pad res b mc n data st t.wlog 0 more).L1 ++ i.O1) ++
+        (cfgPW p recs content body pad res b mc n data st t.wlog 0 more).D ++ i.O2 ++
+        (cfgPW p recs content body pad res b mc n data st t.wlog 0 more).epi ++ (run .header F mc).out =
+      t.wlog ++ (owedPreamble p mc recs ++ i.O1 ++ streamRecords 6 p.id data ++ i.O2 ++ epilogue p.id st ++
+        owedStream p.id 5 mc i.s2) := by
+    intro F hF
+    rw [List.append_cancel_right hF, (run_idle_out mc i.s2 hs2).1, idleOwed_eq_owedStream5 p.id mc hnb2]
+    show ((t.wlog ++ owedPreamble p mc recs) ++ i.O1) ++ streamRecords 6 p.id data ++ i.O2 ++
+      makeRequestEpilogue p.id st [RT.stdout, RT.stderr] ++ _ = _
+    rw [epilogue_eq]
+    simp only [List.append_assoc]
+  refine ⟨c', fin, i.s1, i.s2, i.O1, i.O2, i.d, hrun, hsp, hO.trans (owedI_eq_owedStream p.id mc i.s1),
+    ⟨hd1, hd2, hkp.ev _ (by simp)⟩, ⟨hkp.hs, hkp.ev _ List.mem_cons_self⟩, ?_, hkp.sc, ?_⟩
+  · rcases hend with ⟨_, hp⟩ | ⟨_, hf⟩
+    · obtain ⟨F, hF, _, _, hlg⟩ := hp.pst
+      exact hlg.trans (hout F hF)
+    · obtain ⟨F, hF, hlg⟩ := hf.log
+      exact hlg.trans (hout F hF)
+  · rcases hend with ⟨rfl, hp⟩ | ⟨rfl, hf⟩
+    · obtain ⟨F, hF, hps, hph, _⟩ := hp.pst
+      have hFe : F = serAll i.s2 := List.append_cancel_right hF
+      subst hFe
+      exact Or.inr ⟨hem.symm.trans hp.em, rfl, hph, hp.inp, hkp.mx, hps.stop, hps.ben⟩
+    · exact Or.inl ⟨hem.symm.trans hf.em, rfl, hf.ph⟩
+
+/-- **The chain step for the prefix-read-then-write handler**: a closed-loop client sends the request of
+`unread_prefix_write_e2e` and then the keep-alive requests `x :: xs` (`UReq.OK`): each later request is
+served exactly as alone (`UReq.Seg`), whatever `s₂` was left. -/
+theorem unread_prefix_write_chain_e2e {p : Preamble} {recs : List Rec} {content : Bytes} {srecs : List Rec}
+    {b mc n : Nat} {data : Bytes} {st : ExitStatus} (x : UReq) (xs : List UReq) {t : Transport} {fuel : Nat}
+    (hn : 0 < n)
+    (hwf : WellFormedPreamble p recs) (hrole : p.role = 1) (hk : p.flags.toNat % 2 = 1)
+    (hpairs : ∀ q ∈ p.pairs, (NV.enc q).length ≤ alignedBufsize b)
+    (hnoise : NoiseFits (alignedBufsize b) recs)
+    (hstr : StreamRecs p.id 5 content srecs) (hsn : NoiseFits (alignedBufsize b) srecs)
+    (hnb : ∀ r ∈ srecs, r.rtype.toNat ≠ RT.beginRequest)
+    (hok : ∀ y ∈ x :: xs, y.OK b)
+    (hin : t.input = serAll recs ++ serAll srecs) (hben : Ben t) (hem : t.endMode = .pend)
+    (hev : hsCount t.events = 0) (hfuel : t.rd.length + t.wr.length + 1 ≤ fuel)
+    (hsize : 6 * t.input.length + 26 ≤ 100000) (hhf : wcost data.length + 6 ≤ 1000) :
+    ∃ c' s₁ s₂ O₁ O₂ d A,
+      closedLoop fuel ((x :: xs).map UReq.wire)
+        (connS b mc t ((readThenWrite n data st, true) :: (x :: xs).map UReq.handler)) 0 = (c', "STALL") ∧
+      srecs = s₁ ++ s₂ ∧ O₁ ++ O₂ = owedStream p.id 5 mc s₁ ∧ d <+: content ∧ readSomeEvent d ∈ c'.env.tr.events ∧
+      SegsAll mc (x :: xs) A ∧
+      c'.env.tr.wlog = t.wlog ++ (owedPreamble p mc recs ++ O₁ ++ streamRecords 6 p.id data ++ O₂ ++ epilogue p.id st ++
+        owedStream p.id 5 mc s₂) ++ A ∧
+      hsCount c'.env.tr.events = 1 + (x :: xs).length ∧
+      startEvent p.request ∈ c'.env.tr.events ∧
+      (∀ y ∈ x :: xs, startEvent y.p.request ∈ c'.env.tr.events) ∧ c'.scripts = [] ∧
+      c'.env.tr.input = [] ∧
+      c'.phase = .parseReq (track (alignedBufsize b) mc (serAll ((x :: xs).getLast (by simp)).left)) .reading := by
+  have hidle := srecs_idle hwf hstr hnb
+  obtain ⟨body, pad, res, hpad, hbody, hsrecs⟩ := StreamRecs.split hstr
+  subst hsrecs
+  have ok : PWOK (cfgPW p recs content body pad res b mc n data st t.wlog 0
+      (((x :: xs).map (UReq.spec mc)).map RSpec.handler)) n :=
+    ⟨hwf, hrole, hpairs, hnoise, hbody, fun r hr hg => hsn r (List.mem_append_left _ hr) hg, hpad, rfl, rfl,
+      streamRecs_stdin (pid_of_wf hwf).2 hstr, rfl, hn, hhf⟩
+  -- the first request
+  have hstart : StartAt (alignedBufsize b) mc [] t.wlog
+      ((readThenWrite n data st, true) :: ((x :: xs).map (UReq.spec mc)).map RSpec.handler) 0 [] (ans t)
+      (serAll recs ++ (serAll body ++
+        ({ rtype := 5, id := p.id, content := [], pad := pad, reserved := res } : Rec).ser))
+      (connS b mc t ((readThenWrite n data st, true) :: ((x :: xs).map (UReq.spec mc)).map RSpec.handler)) :=
+    Or.inr ⟨rfl, rfl, by show t.input = _; rw [hin, C02.serAll_append, C02.serAll_single]; rfl, rfl, hben, rfl, rfl, rfl, hev,
+      (fun _ hs => nomatch hs), rfl, hem, Nat.le_refl _⟩
+  have hleft0 : LeftOK (alignedBufsize b) [] := ⟨(fun _ he => nomatch he), (fun _ hr => nomatch hr)⟩
+  have hR : ∀ e ∈ (cfgPW p recs content body pad res b mc n data st t.wlog 0
+      (((x :: xs).map (UReq.spec mc)).map RSpec.handler)).R, IdleNoise e := fun e he => hidle e he
+  have hlo : ∀ s1 s2 : List Rec, (cfgPW p recs content body pad res b mc n data st t.wlog 0
+      (((x :: xs).map (UReq.spec mc)).map RSpec.handler)).R = s1 ++ s2 → LeftOK (alignedBufsize b) s2 := by
+    intro s1 s2 hsp
+    have hm : ∀ e ∈ s2, e ∈ (cfgPW p recs content body pad res b mc n data st t.wlog 0
+        (((x :: xs).map (UReq.spec mc)).map RSpec.handler)).R := fun e he => by
+      rw [hsp]; exact List.mem_append_right _ he
+    exact ⟨fun e he => hidle e (hm e he), fun e he hg => hsn e (hm e he) hg⟩
+  have hsz : 6 * (cfgPW p recs content body pad res b mc n data st t.wlog 0
+      (((x :: xs).map (UReq.spec mc)).map RSpec.handler)).W.length + 26 ≤ 100000 := by
+    have : (cfgPW p recs content body pad res b mc n data st t.wlog 0
+      (((x :: xs).map (UReq.spec mc)).map RSpec.handler)).W = t.input := by
+      rw [hin, C02.serAll_append, C02.serAll_single]; rfl
+    rw [this]; exact hsize
+  obtain ⟨c1, i, hrun1, ⟨hsp, hO, hd1, _⟩, hd3, hw1⟩ := serve_prefixW_core ok hk (left := []) hleft0
+    (Z := x.wire) hR (fun s1 s2 hsp => goodNext_of_ok (hok x List.mem_cons_self) (hlo s1 s2 hsp)) 0 fuel
+    (by simp [idleOwed]; rfl) hstart (by unfold ans; omega) hsz
+  have hnb2 : ∀ r ∈ i.s2, r.rtype.toNat ≠ RT.beginRequest := fun e he => hnb e (by
+    have : e ∈ (cfgPW p recs content body pad res b mc n data st t.wlog 0
+        (((x :: xs).map (UReq.spec mc)).map RSpec.handler)).R := by rw [hsp]; exact List.mem_append_right _ he
+    exact this)
+  have hLw : (((cfgPW p recs content body pad res b mc n data st t.wlog 0
+      (((x :: xs).map (UReq.spec mc)).map RSpec.handler)).front []).L1 ++ i.O1) ++
+      (cfgPW p recs content body pad res b mc n data st t.wlog 0
+      (((x :: xs).map (UReq.spec mc)).map RSpec.handler)).D ++ i.O2 ++
+      (cfgPW p recs content body pad res b mc n data st t.wlog 0
+      (((x :: xs).map (UReq.spec mc)).map RSpec.handler)).epi ++ idleOwed mc i.s2 =
+      t.wlog ++ (owedPreamble p mc recs ++ i.O1 ++ streamRecords 6 p.id data ++ i.O2 ++ epilogue p.id st ++
+        owedStream p.id 5 mc i.s2) := by
+    rw [idleOwed_eq_owedStream5 p.id mc hnb2]
+    show ((t.wlog ++ owedPreamble p mc ([] ++ recs)) ++ i.O1) ++ streamRecords 6 p.id data ++ i.O2 ++
+      makeRequestEpilogue p.id st [RT.stdout, RT.stderr] ++ _ = _
+    rw [epilogue_eq]
+    simp only [List.append_assoc, List.nil_append]
+  have hw1' : Waiting (alignedBufsize b) mc i.s2
+      (t.wlog ++ (owedPreamble p mc recs ++ i.O1 ++ streamRecords 6 p.id data ++ i.O2 ++ epilogue p.id st ++
+        owedStream p.id 5 mc i.s2))
+      (((x :: xs).map (UReq.spec mc)).map RSpec.handler) 1 [hsEvent p.request, rdEvent i.d] (ans t) c1 := by
+    rw [← hLw]
+    have hev' : ∀ s ∈ [hsEvent p.request, rdEvent i.d], s ∈ c1.env.tr.events := by
+      intro s hs
+      rcases List.mem_cons.1 hs with rfl | hs
+      · exact hw1.ev _ List.mem_cons_self
+      · rw [List.mem_singleton.1 hs]; exact hd3
+    exact { hw1 with ev := hev' }
+  -- the others
+  obtain ⟨c', A, hrun, hseg, hw⟩ := chain_serves (alignedBufsize b) mc (serAll dummyRecs ++ [])
+    (xs.map (UReq.spec mc)) (UReq.spec mc x) i.s2 _ 1 [hsEvent p.request, rdEvent i.d] (ans t) (feed c1 x.wire) 1000 fuel
+    (hall_of_ok x xs hok) (hlo i.s1 i.s2 hsp) (Or.inl ⟨c1, hw1', rfl⟩) (by unfold ans; omega)
+  have hrun' : closedLoop fuel ((x :: xs).map UReq.wire)
+      (connS b mc t ((readThenWrite n data st, true) :: (x :: xs).map UReq.handler)) 0 = (c', "STALL") := by
+    have e : (x :: xs).map UReq.handler = ((x :: xs).map (UReq.spec mc)).map RSpec.handler := by
+      rw [List.map_map]; rfl
+    rw [e]
+    show closedLoop fuel (x.wire :: xs.map UReq.wire) _ 0 = _
+    rw [closedLoop, hrun1]
+    simp only [if_true]
+    rw [← hrun, List.map_map]; rfl
+  have hlast := lastLeft_specs mc x xs
+  have hevd : readSomeEvent i.d ∈ c'.env.tr.events :=
+    hw.ev _ (mem_evsAfter _ _ _ (Or.inl (by simp)))
+  refine ⟨c', i.s1, i.s2, i.O1, i.O2, i.d, A, hrun', hsp, hO.trans (owedI_eq_owedStream p.id mc i.s1), hd1, hevd, segAll_specs mc (x :: xs) A hseg, hw.log, ?_, ?_, ?_, hw.sc, hw.inp, ?_⟩
+  · have := hw.hs; simpa [Nat.add_comm] using this
+  · exact hw.ev _ (mem_evsAfter _ _ _ (Or.inl List.mem_cons_self))
+  · intro y hy
+    exact hw.ev _ (mem_evsAfter _ _ _ (Or.inr ⟨UReq.spec mc y, List.mem_map_of_mem hy, rfl⟩))
+  · rw [← hlast]; exact hw.ph
+
+
 /-! ## Non-vacuity -/
 namespace Example
 open Fcgi.C01.Example Fcgi.C07E.Example
@@ -371,6 +593,39 @@ example : ∃ c' d₁ s₂, runTask 20 (connS 64 10 fgT [([.ret (.complete 3)], 
     have h2 : owedStream 1 5 10 fS = [] := by decide +kernel
     rw [h1, h2]
     simp only [List.nil_append, List.append_assoc]
+    rfl
+
+/-- `unread_prefix_write_e2e` applied to the request of `Props/C07E2E` with the Stdin stream `nS`
+(a management `GetValues` record, `"ABC"`, an unknown-type record, the terminator): the handler reads
+up to 2 bytes, writes `"hi"` to Stdout and returns `Complete(3)`.  Replayed
+(`# case c07-prefix-write-*`): with `rd=10,P,7,A,3` model driver and crate print `… HS(1,1,41:62)
+W32:32 R61:29 r=2:4142 o=w0 V8+2+6:16 W=ok HE(ok:complete:3) W16:16 W32:32 R64:W STALL` — `O₁` = the
+`GetValues` reply, then the Stdout record, then `O₂` = the unknown-type reply (generated by
+`record_boundary()`, which swallowed the whole buffered stream), then the epilogue.  With
+`rd=10,P,7,55,26,34,7,A` the `read` returns 1 byte while the `GetValues` reply is still queued in the
+parser: the Stdout record comes FIRST (`O₁ = []`), the reply after it (`O₂`), then the epilogue, and
+the unknown-type reply after the epilogue (`s₂`). -/
+example : ∃ c' s₁ s₂ O₁ O₂ d, runTask 20 (connS 64 10 nT [(readThenWrite 2 [104, 105] (.complete 3), true)]) 0 none =
+      (c', "STALL") ∧
+    nS = s₁ ++ s₂ ∧ O₁ ++ O₂ = owedStream 1 5 10 s₁ ∧ d <+: ([65, 66, 67] : Bytes) ∧ d ≠ [] ∧
+    c'.env.tr.wlog = owedPreamble pre 10 recs ++ O₁ ++ [1, 6, 0, 1, 0, 2, 6, 0, 104, 105, 0, 0, 0, 0, 0, 0] ++ O₂ ++
+      [1, 6, 0, 1, 0, 0, 0, 0, 1, 7, 0, 1, 0, 0, 0, 0, 1, 3, 0, 1, 0, 8, 0, 0, 0, 0, 0, 3, 0, 0, 0, 0] ++
+      owedStream 1 5 10 s₂ ∧
+    hsCount c'.env.tr.events = 1 ∧ c'.env.tr.input = [] := by
+  obtain ⟨c', fin, s1, s2, O1, O2, d, hrun, ho⟩ := unread_prefix_write_e2e (p := pre) (recs := recs)
+    (content := [65, 66, 67]) (srecs := nS) (b := 64) (mc := 10) (n := 2) (data := [104, 105]) (st := .complete 3)
+    (more := []) (t := nT) (fuel := 20)
+    (by decide) recs_wf rfl (by decide) (pre_pairs_fit 64) (noise_fits 64) nS_ok nS_fits
+    nS_noBegin rfl ⟨by decide, by decide, rfl, by decide⟩ rfl (by decide) (by decide +kernel) (by decide)
+  rcases ho.final with ⟨h, _⟩ | ⟨_, hfin, _, hin, _⟩
+  · exact absurd h (by decide)
+  · subst hfin
+    refine ⟨c', s1, s2, O1, O2, d, hrun, ho.split, ho.owed, ho.read.1, fun hd => absurd (ho.read.2.1 hd) (by decide), ?_,
+      ho.one_handler.1, hin⟩
+    rw [ho.log]
+    show [] ++ (owedPreamble pre 10 recs ++ O1 ++ streamRecords 6 1 [104, 105] ++ O2 ++ epilogue 1 (.complete 3) ++
+      owedStream 1 5 10 s2) = _
+    rw [List.nil_append]
     rfl
 
 end Example
